@@ -335,7 +335,17 @@ class QueryHandler:
             if not is_unicast:
                 if known_answers_set is None:  # pragma: no branch
                     known_answers_set = known_answers.lookup_set()
-                self.question_history.add_question_at_time(question, now, known_answers_set)
+                # Only the known answers to this question matter for duplicate question
+                # suppression, a query can carry several questions with their known answers
+                self.question_history.add_question_at_time(
+                    question,
+                    now,
+                    {
+                        record
+                        for record in known_answers_set
+                        if record.key == question.key and question.type in (record.type, _TYPE_ANY)
+                    },
+                )
             answer_set = self._answer_question(
                 question, strategy.strategy_type, strategy.types, strategy.services, known_answers
             )
